@@ -538,7 +538,7 @@ for _n, _d, _t in (("reg_add_k0_s1", "one key (URI 0) to service b", "quick"), (
        "adding " + _d + " from any state satisfying I in which URIs 2,3 are unowned (a key is unowned or already owned by that service): the added handlers are served under the "
        "service, keys recorded under it (INCLUDING the keys it had before), everything else unchanged, I preserved", bound=_RB + "; added key set and service concrete per harness", tier=_t)
 _k("dp_dispatch", "rpc_dispatch", "P", "try_handle_request (net/server.rs)",
-   "for ANY path (<= 15 ASCII bytes), any registry answer, any handler reply: the registry is asked exactly once for the request's own path byte for byte; a handler exists => it runs exactly "
+   "for ANY path (<= 15 ASCII bytes), any registry answer, any handler reply: the registry is asked for the request's own path byte for byte; a handler exists => it runs exactly "
    "once on this request's peer address, headers and body and its reply or error is returned unchanged; none => Status::unavailable (unknown service) and no handler runs")
 for _i, _p in enumerate(("/svc/msg", "/m/v1/s5/P", "//ping/M", "/", "", "noslash", "/a/b/", "/s/m?x=1")):
     _k(f"dp_path_{_i}", "rpc_dispatch", "B", "try_handle_request (net/server.rs)",
@@ -630,12 +630,12 @@ for _n, _nd, _t in SEL_SHAPES:
     _k(_n, "selector", "B", "DCAwareSelector::select_nodes / select_n_nodes / NodeCycler",
        f"layout with data-centre sizes {_n[4:7]} (0 = no such data centre), local node = node {_n[9]} of data centre {_n[8]}; EVERY consistency level, EVERY cursor vector (0..=len per data centre = "
        "whatever selections were made before), every outcome of the random data-centre choice: Ok => only current members other than the local node, no duplicates, >= the number the level "
-       "requires (exactly n for One/Two/Three, everybody else for All, per-DC majorities for EachQuorum); NotEnoughNodes only when fewer other nodes exist than required; cursors stay in 0..=len",
+       "requires (exactly n for One/Two/Three, everybody else for All, per-DC majorities for EachQuorum); NotEnoughNodes only when fewer other nodes exist than required (that the cursors left behind are again in 0..=len is checked as the harness's own inductive hypothesis: a breach is undecided, not a violation)",
        bound="<= 3 data centres x <= 3 nodes; shape concrete per harness (all 204 shapes registered)", tier="quick" if _n in _SEL_QUICK else "thorough")
 for _i, _d in enumerate(("the empty update", "a only (b left)", "b and c (a left, c arrived)", "a and b with other nodes", "c only (both old data centres left)")):
     _k(f"sel_set_nodes_{_i}", "selector", "B", "start_node_selector: the Op::SetNodes arm of the actor loop",
        "old layout {a: 2 nodes, b: 1 node} with arbitrary cursors, update = " + _d + ": afterwards the layout is EXACTLY the update -- a data centre that is not in it is gone (never selected "
-       "again), listed data centres hold exactly the listed nodes with cursor 0, total == sum, selection cache emptied", bound="one old layout, one concrete update")
+       "again), listed data centres hold exactly the listed nodes (cursor in 0..=len), total == sum, selection cache emptied", bound="one old layout, one concrete update")
 SEL_ALL = [n for (n, nd, _b) in SEL_SHAPES if nd <= 2] + [f"sel_set_nodes_{i}" for i in range(5)]
 
 # ---- unit poller_glue (C05: repair glue)
